@@ -926,40 +926,49 @@ class Outcome:
     meta: dict = field(default_factory=dict)
 
 
+def _solve(constraints: Sequence[Any], timeout_s: float):
+    """One-shot solver per check(): z3's incremental mode (several check() calls on one solver) skips the
+    preprocessing that makes these queries easy (measured: 3.9 s one-shot vs > 60 s incremental)."""
+    s = z3.Solver()
+    s.set("timeout", max(1000, int(timeout_s * 1000)))
+    s.add(*constraints)
+    r = s.check()
+    return r, s
+
+
 def decide(q: Query, timeout_s: float, vacuity: bool = True) -> Outcome:
     t0 = time.time()
-    s = z3.Solver()
-    s.set("timeout", int(timeout_s * 1000))
+    base: List[Any] = []
     for t in q.texts.values():
-        s.add(t.base)
-    s.add(q.pre)
+        base += t.base
+    base += list(q.pre)
     if vacuity:
-        r = s.check()
+        r, s = _solve(base, timeout_s)
         if r == z3.unsat:
             return Outcome(q.name, "vacuous", time.time() - t0, reason="antecedent unsatisfiable", family=q.family, meta=q.meta)
         if r != z3.sat:
             return Outcome(q.name, "unknown", time.time() - t0, reason="vacuity check: " + s.reason_unknown(), family=q.family, meta=q.meta)
-    s.add(q.neg)
-    remaining = max(1.0, timeout_s - (time.time() - t0))
-    s.set("timeout", int(remaining * 1000))
-    r = s.check()
+    full = base + list(q.neg)
+    r, s = _solve(full, max(1.0, timeout_s - (time.time() - t0)))
     if r == z3.unsat:
         return Outcome(q.name, "unsat", time.time() - t0, family=q.family, meta=q.meta)
     if r != z3.sat:
         return Outcome(q.name, "unknown", time.time() - t0, reason=s.reason_unknown(), family=q.family, meta=q.meta)
     m = s.model()
     if q.minimise is not None:
-        s.set("timeout", int(min(10.0, timeout_s) * 1000))
-        for _ in range(64):
-            cur = pos_of(m.eval(q.minimise, model_completion=True))
-            s.push()
-            s.add(q.minimise < cur)
-            r2 = s.check()
+        budget = time.time() + min(20.0, timeout_s)
+        lo = 0
+        cur = pos_of(m.eval(q.minimise, model_completion=True))
+        # binary search on the minimised term; every probe is a one-shot query, an inconclusive probe ends the search
+        while lo < cur and time.time() < budget:
+            mid = (lo + cur - 1) // 2
+            r2, s2 = _solve(full + [q.minimise <= mid], min(10.0, timeout_s))
             if r2 == z3.sat:
-                m = s.model()
-                s.pop()
+                m = s2.model()
+                cur = pos_of(m.eval(q.minimise, model_completion=True))
+            elif r2 == z3.unsat:
+                lo = mid + 1
             else:
-                s.pop()
                 break
     wit = {"texts": {}, "ints": {}}
     for tag, t in q.texts.items():
